@@ -55,6 +55,15 @@ def run(ctx):
             ctx.sample(smp)
         for m in s["mismatches"]:
             ctx.report({"kind": m["kind"], "option": m["option"]}, "ow-sim (%s): %s" % (m["option"], m["detail"][:1500]), m)
+    # a wider sample of the three-generation scaling graphs with the default option only (links that skip a generation
+    # into a model that also has nodes in between, factors that differ from node to node)
+    cases_w, _ = owsim.graphs(ctx, "OwSimData_scale.cfg")
+    sw = owsim.run_engine(ctx, cases_w, binary, ["-sample", str(120 if ctx.quick else 1500), "-options", "basic", "-workers", "16"], seed_offset=6000)
+    ctx.cov["evaluations"] += sw["evaluations"]
+    ctx.cov["traces_validated_against_impl"] += sw["evaluations"]
+    ctx.notes.setdefault("b1", []).append(sw["extra"])
+    for m in sw["mismatches"]:
+        ctx.report({"kind": m["kind"], "option": m["option"]}, "ow-sim (%s): %s" % (m["option"], m["detail"][:1500]), m)
     # (2) B2: hook traces of perturbed runs
     tdir = os.path.join(ctx.scratch, "owtraces")
     os.makedirs(tdir)
